@@ -57,7 +57,7 @@ def teardown(ctx):
 
 
 def generate(ctx):
-    nstreams = ctx.scale(8, 64)
+    nstreams = ctx.scale(8, 320)
     idx = 0
     for i in range(nstreams):
         s = subseed("c04", ctx.seed, "stream", i)
